@@ -54,6 +54,18 @@ FIRST_MISS = {
  "C13-r5m3": "an output more than 4096 frames behind the leader",
  "C14-r5m3": "batches consumed by internal iteration (fold / for_each / count / last)",
  "C07-r5m2": "Debug formatting into a non-allocating sink as an operation (`fmt` events)",
+ "C01-r5m1": "Sample's associated constants judged (`sconst`, `eqconv` events)",
+ "C01-r5m2": "every conversion entry point: five routes per pair plus to_signed_sample / to_float_sample (`via`) and add_amp / mul_amp (`amp`)",
+ "C01-r5m3": "every custom-type conversion result must be accepted by its checked constructor (`o.nw`)",
+ "C03-r5m2": "release build profile executed too; offsets landing exactly on MIN / MAX of every integer format",
+ "C03-r5m3": "clone / cycle of the channel iterators mid-iteration (Frames.tla ItOp clone, cycle)",
+ "C10-r5m1": "release build profile executed too; longer-than mismatches in executions of their own (crash attribution)",
+ "C05-r5m1": "`drive` events: provided Iterator methods on take / until_exhausted / interleaved samples as repeated next (Signals.tla ITERATOR METHODS)",
+ "C05-r5m2": "C05 also runs the bus pipeline with only the is_exhausted conjunct of Trace_Bus allowed to reject (BUS_PROP=C05); C13 caught it already",
+ "C11-r5m3": "RMS over the whole float value range (domain ends where N*x^2 overflows; format-dependent no_std absolute term)",
+ "C17-r5m3": "noise hash chain on exact naturals: witness counters at which each u64 operation crosses 2^64 (spec-verified), debug build panics judged",
+ "C18-r5m2": "exact positions next to the grid (1-2^-k, 2^-k, subnormals) and the constant clause through converters at near-integer phases",
+ "C20-r5m1": "frame value patterns in windower input (silence at every position, per channel, runs, equal frames), u8/u16 frames",
  "C09-r3m1": "nodes without buffers anywhere in random graphs (counted per incoming edge when they are inputs)",
 }
 rows = []
